@@ -116,11 +116,14 @@ def _file_sink(body):
     # FileSink._close_file
     c = find_func(tree, "_close_file", cls="FileSink")
     ops = []
+    bound = False  # since e6154e8: `file = self._file` first, then file.flush(), resets, file.close()
     for st in _strip_doc(c.body):
         src = _u(st)
-        if src == "self._file.flush()":
+        if src == "file = self._file" and not ops:
+            bound = True
+        elif src == "self._file.flush()" or (bound and src == "file.flush()"):
             ops.append(".flush")
-        elif src == "self._file.close()":
+        elif src == "self._file.close()" or (bound and src == "file.close()"):
             ops.append(".close")
         elif isinstance(st, ast.Assign) and len(st.targets) == 1 and _u(st.targets[0]).startswith("self._file") \
                 and isinstance(st.value, (ast.Constant, ast.UnaryOp)):
